@@ -300,6 +300,73 @@ func c13Child(c *config) {
 			}
 		}
 	}
+	// block, instruction and value level only, on a module nothing has printed or queried yet: no function or
+	// module level call assigns IDs or fills a cache first, so whatever these observers write, they write here
+	for mi, mk := range c13Modules(c) {
+		m := mk()
+		if m == nil {
+			continue
+		}
+		o.Stat("modules.fine_grained_only")
+		bad := ""
+		var mu sync.Mutex
+		var wg sync.WaitGroup
+		start := make(chan struct{})
+		for g := 0; g < G; g++ {
+			wg.Add(1)
+			go func(g int) {
+				defer wg.Done()
+				<-start
+				oc, msg := guard(func() error {
+					for _, gl := range m.Globals {
+						_ = gl.Type()
+						_ = gl.Ident()
+					}
+					for _, f := range m.Funcs {
+						_ = f.Type()
+						for _, p := range f.Params {
+							_ = p.Type()
+							_ = p.LLString()
+						}
+						for _, b := range f.Blocks {
+							if g%2 == 0 {
+								_ = b.LLString()
+							}
+							for _, in := range b.Insts {
+								if v, ok := in.(value.Value); ok {
+									_ = v.Type()
+									_ = v.String()
+								}
+								_ = in.LLString()
+							}
+							if b.Term != nil {
+								// (not Succs: it is no query that printing performs, and its cache is KF-17's matter)
+								_ = b.Term.LLString()
+								if v, ok := b.Term.(value.Value); ok {
+									_ = v.Type()
+									_ = v.String()
+								}
+							}
+							_ = b.LLString()
+						}
+					}
+					return nil
+				})
+				mu.Lock()
+				defer mu.Unlock()
+				if oc != ocOk && bad == "" {
+					bad = "a concurrent block-level print panics: " + msg
+				}
+			}(g)
+		}
+		close(start)
+		wg.Wait()
+		if bad != "" {
+			o.Fail("concurrent_printing", "", bad, map[string]interface{}{"module": mi, "state": "fine_grained_only"})
+		} else {
+			o.Pass("concurrent_printing")
+		}
+	}
 	// witness scenario of KF-34: a function printed on its own while its never-printed module is printed
 	for i := 0; i < 60; i++ {
 		m := ir.NewModule()
